@@ -34,7 +34,7 @@ func init() {
 			}
 			for i := 0; i < n && !b.Stop(); i++ {
 				b.Case("fc-history", "")
-				runFcHistory(b, catHead, fcParams{maxOps: maxOps, withUpdates: i%2 == 0}, i)
+				runFcHistory(b, catHead, fcParams{maxOps: maxOps, withUpdates: i%2 == 0, sinkFaults: i%4 == 0}, i)
 			}
 		},
 		Required: []string{"head_ok", "findhead_queries", "votes_accepted", "votes_stale_epoch", "votes_unknown_target", "histories_with_forks", "histories_with_gap_slot_votes", "histories_with_late_blocks", "updates_applied", "pins"},
